@@ -123,3 +123,23 @@ def map_owner(db, ctx):
 def split_offsets(db, ctx):
     from . import C09
     C09.offsets(db, ctx)
+
+
+@rule("C08.scratch-cleared", "every rewrite batch starts from empty scratch buffers: InputBuffer::commit clears both targets it hands to resolve_edits (which "
+                             "APPENDS to them) before the call, in the same function — cleared only in reset(), a second batch on the same sentence appends "
+                             "the new text and map to the previous batch's")
+def scratch_cleared(db, ctx):
+    from ..inline import nf
+    cm = db.view(db.one("commit", "InputBuffer"))
+    order = [x for x, _ in walk(cm.hir)]
+    pos = {id(x): i for i, x in enumerate(order)}
+    calls = [c for c in order if is_call(c) and path_ends(callee(c) or "", "resolve_edits")]
+    if len(calls) != 1:
+        raise AnchorMissing("InputBuffer::commit: resolve_edits call")
+    a = call_args(calls[0])
+    for tgt in (a[2], a[3]):
+        name = nf(tgt)
+        cleared = [x for x in order if x.get("k") == "MethodCall" and x.get("method") in ("clear",) and nf(x["recv"]) == name and pos[id(x)] < pos[id(calls[0])]
+                   and not [c_ for c_, _ in (path_conditions(x["id"], cm.hir) or []) if isinstance(c_, dict) and not mentions(c_, lambda y: y.get("k") == "MethodCall" and y.get("method") == "is_empty" and "replaces" in render(y))]]
+        ctx.ob("commit|clears|%s" % name, bool(cleared), "`%s` is cleared in commit() before resolve_edits appends to it: %s" % (name, bool(cleared)), fn=cm)
+    ctx.floor(2)
